@@ -186,6 +186,33 @@ Section SpanOps.
     - replace (i <? s_size s) with false by lia. reflexivity.
   Qed.
 
+  (* the constructors (pointer + count, range, other span): on a span type of static extent the count must equal
+     the extent (precondition, fix 721a088), otherwise the span designates exactly [ptr, ptr + count); every span
+     the library itself builds (the results of first/last/subspan/as_bytes are [sp_consistent]) passes the check *)
+  Theorem sp_ctor_spec : forall ext ptr sz,
+    (sp_ctor ext ptr sz = Contract <-> exists n, ext = Some n /\ sz <> n)
+    /\ (forall r, sp_ctor ext ptr sz = Ok r ->
+         s_off r = ptr /\ s_size r = sz /\ s_ext r = ext /\ sp_consistent r).
+  Proof.
+    intros ext ptr sz. unfold sp_ctor, mk_span, sp_consistent. destruct ext as [n|].
+    - destruct (sz =? n) eqn:E.
+      + apply Z.eqb_eq in E. subst n. split.
+        * split; [discriminate | intros [m [Hm Hne]]; inversion Hm; subst; contradiction].
+        * intros r Hr. inversion Hr; subst r. cbn [s_off s_size s_ext]. repeat split.
+      + apply Z.eqb_neq in E. split.
+        * split; [intros _; exists n; split; [reflexivity | exact E] | reflexivity].
+        * intros r Hr. discriminate.
+    - split.
+      + split; [discriminate | intros [m [Hm _]]; discriminate].
+      + intros r Hr. inversion Hr; subst r. cbn [s_off s_size s_ext]. repeat split.
+  Qed.
+
+  Theorem sp_ctor_internal : forall r, sp_consistent r -> sp_ctor (s_ext r) (s_off r) (s_size r) = Ok r.
+  Proof.
+    intros [o sz ext] H. unfold sp_consistent, sp_ctor, mk_span in *. cbn [s_off s_size s_ext] in *.
+    destruct ext as [n|]; [subst sz; rewrite Z.eqb_refl; reflexivity | reflexivity].
+  Qed.
+
   (* front() / back(): the first / last element of the window (operator[] at 0 / size()-1), precondition exactly
      for the empty span *)
   Theorem sp_front_back_spec : forall s, 0 <= s_size s ->
